@@ -48,6 +48,8 @@ mod types {
     // a container rename is taken VERBATIM (not snake_cased) for `Table`
     #[derive(Iden)] #[iden = "UserAccount"] pub enum VerbatimContainer { Table, Col }
     #[derive(IdenStatic, Clone, Copy)] #[iden(rename = "UserAccount2")] pub enum VerbatimContainerStatic { Table, Col }
+    // every OWN name plain, a flattened variant delegating to a name with quote characters: no fast path may be generated
+    #[derive(Iden)] pub enum PlainWithFlatten { Table, Id, #[iden(flatten)] Extra(QuoteInRename) }
     #[derive(Iden)] pub struct UnitStruct;
     #[derive(Iden)] pub struct HTTPUnitV2;
     #[derive(Iden)] #[iden = "renamed unit"] pub struct RenamedUnit;
@@ -118,6 +120,7 @@ pub fn search(_obl: &str) -> Vec<Witness> {
     same("QuoteInRename::Odd", &QuoteInRename::Odd); same("QuoteInRename::Odd2", &QuoteInRename::Odd2); same("QuoteInRename::Table", &QuoteInRename::Table);
     same("QuoteThenPlain::Odd", &QuoteThenPlain::Odd); same("QuoteThenPlain::Plain", &QuoteThenPlain::Plain); same("QuoteThenPlainStatic::Odd", &QuoteThenPlainStatic::Odd);
     same("QuoteInContainer::Table", &QuoteInContainer::Table); same("QuoteInContainer::Plain", &QuoteInContainer::Plain); same("QuoteInContainerStatic::Table", &QuoteInContainerStatic::Table);
+    same("PlainWithFlatten::Extra(Odd)", &PlainWithFlatten::Extra(QuoteInRename::Odd)); same("PlainWithFlatten::Extra(Odd2)", &PlainWithFlatten::Extra(QuoteInRename::Odd2)); same("PlainWithFlatten::Id", &PlainWithFlatten::Id);
     same("FontFaceIden::FamilyName", &FontFaceIden::FamilyName); same("XMLHttpRequest::Table", &XMLHttpRequest::Table);
     eprintln!("C19: {n} derived identifiers / quoted texts compared");
     out
